@@ -23,7 +23,7 @@ def _init(repo, cdir, lattice):
 
 
 def _work(args):
-    key, timeout_ms = args
+    key, timeout_ms, second_ms, cross = args
     import z3
     side: Sidecar = _G['side']
     con = side.contracts.get(key) or side.lemmas.get(key)
@@ -34,7 +34,7 @@ def _work(args):
         info = eng.verify(con)
         res.update(info)
         for ob in eng.obligations:
-            eng.solve(ob, timeout_ms)
+            eng.solve(ob, timeout_ms, second_ms, cross)
             res['obligations'].append({
                 'id': ob.oid, 'func': ob.func, 'kind': ob.kind, 'label': ob.label, 'props': ob.props, 'verdict': ob.verdict,
                 'backend': ob.backend, 'time_s': round(ob.time_s, 4), 'origin': ob.origin, 'path_kind': ob.path_kind,
@@ -54,7 +54,7 @@ def _work(args):
 
 
 def run(repo: str, cdir: str, keys: Optional[List[str]] = None, props: Optional[List[str]] = None,
-        timeout_ms: int = 10000, procs: int = 16) -> List[Dict[str, Any]]:
+        timeout_ms: int = 10000, procs: int = 16, second_ms: int = 20000, cross: bool = False) -> List[Dict[str, Any]]:
     lattice = load_lattice(repo)
     side = Sidecar(cdir)
     allc = {**side.contracts, **side.lemmas}
@@ -72,10 +72,10 @@ def run(repo: str, cdir: str, keys: Optional[List[str]] = None, props: Optional[
     procs = max(1, min(procs, len(sel)))
     if procs == 1:
         _init(repo, cdir, lattice)
-        return [_work((k, timeout_ms)) for k in sel]
+        return [_work((k, timeout_ms, second_ms, cross)) for k in sel]
     ctx = mp.get_context('fork')
     with ctx.Pool(procs, initializer=_init, initargs=(repo, cdir, lattice)) as pool:
-        return pool.map(_work, [(k, timeout_ms) for k in sel], chunksize=1)
+        return pool.map(_work, [(k, timeout_ms, second_ms, cross) for k in sel], chunksize=1)
 
 
 def main(argv=None):
